@@ -46,11 +46,11 @@ def optSemi : List Token → List Token
 /-- `dotted_identifier`, given that the first IDENTIFIER has been consumed -/
 def dottedRest (pend : Option LexErr) : Nat → List String → List Token → P (List String × List Token)
   | 0, _, _ => .error .outOfFuel
-  | f+1, acc, ⟨.lit '.', _⟩ :: ts =>
+  | f+1, acc, ts =>
     match ts with
-    | ⟨.ident s, _⟩ :: ts' => dottedRest pend f (acc ++ [s]) ts'
-    | _ => .error (bad pend ts)
-  | _+1, acc, ts => .ok (acc, ts)
+    | ⟨.lit '.', _⟩ :: ⟨.ident s, _⟩ :: ts' => dottedRest pend f (acc ++ [s]) ts'
+    | ⟨.lit '.', _⟩ :: r => .error (bad pend r)
+    | _ => .ok (acc, ts)
 
 def dotted (pend : Option LexErr) (s : String) (ts : List Token) : P (List String × List Token) :=
   dottedRest pend (ts.length + 1) [s] ts
@@ -96,33 +96,40 @@ def opOf : Lex.Kind → Option Expr.Op
 mutual
 def exprAtom (pend : Option LexErr) : Nat → List Token → P (Expr.E × List Token)
   | 0, _ => .error .outOfFuel
-  | _+1, ⟨.int n, _⟩ :: ts => .ok (.num n, ts)
-  | _+1, ⟨.hex n, _⟩ :: ts => .ok (.num n, ts)
-  | _+1, ⟨.ident s, _⟩ :: ts => do
-    let (p, ts') ← dotted pend s ts
-    .ok (.ref (".".intercalate p), ts')
-  | f+1, ⟨.lit '(', _⟩ :: ts => do
-    let (e, ts') ← exprPrec pend f 1 ts
-    match ts' with
-    | ⟨.lit ')', _⟩ :: r => .ok (e, r)
-    | _ => .error (bad pend ts')
-  | _+1, ts => .error (bad pend ts)
+  | f+1, ts =>
+    match ts with
+    | ⟨.int n, _⟩ :: r => .ok (.num n, r)
+    | ⟨.hex n, _⟩ :: r => .ok (.num n, r)
+    | ⟨.ident s, _⟩ :: r =>
+      match dotted pend s r with
+      | .ok (p, r') => .ok (.ref (".".intercalate p), r')
+      | .error e => .error e
+    | ⟨.lit '(', _⟩ :: r =>
+      match exprPrec pend f 1 r with
+      | .ok (e, ⟨.lit ')', _⟩ :: r') => .ok (e, r')
+      | .ok (_, r') => .error (bad pend r')
+      | .error e => .error e
+    | _ => .error (bad pend ts)
 def exprPrec (pend : Option LexErr) : Nat → Nat → List Token → P (Expr.E × List Token)
   | 0, _, _ => .error .outOfFuel
-  | f+1, p, ts => do
-    let (l, ts') ← exprAtom pend f ts
-    exprLoop pend f p l ts'
+  | f+1, p, ts =>
+    match exprAtom pend f ts with
+    | .ok (l, ts') => exprLoop pend f p l ts'
+    | .error e => .error e
 def exprLoop (pend : Option LexErr) : Nat → Nat → Expr.E → List Token → P (Expr.E × List Token)
   | 0, _, _, _ => .error .outOfFuel
-  | f+1, p, l, t :: ts =>
-    match opOf t.kind with
-    | some o =>
-      if o.prec ≥ p then do
-        let (r, ts') ← exprPrec pend f (o.prec + 1) ts
-        exprLoop pend f p (.bin o l r) ts'
-      else .ok (l, t :: ts)
-    | none => .ok (l, t :: ts)
-  | _+1, _, l, [] => .ok (l, [])
+  | f+1, p, l, ts =>
+    match ts with
+    | t :: r =>
+      match opOf t.kind with
+      | some o =>
+        if o.prec ≥ p then
+          match exprPrec pend f (o.prec + 1) r with
+          | .ok (rhs, ts') => exprLoop pend f p (.bin o l rhs) ts'
+          | .error e => .error e
+        else .ok (l, ts)
+      | none => .ok (l, ts)
+    | [] => .ok (l, [])
 end
 
 /-- `const_value`: a literal, a lone reference, or a calculation -/
@@ -228,84 +235,93 @@ structure Body where
   members : List (Nat × String × Nat) := []
   protos : List String := []
   stopped : Bool := false
+  /-- ghost flag: reading stopped because a fuel bound was hit (proved never to happen, `Proofs/Parse.lean`) -/
+  hung : Bool := false
 
-def Body.stopWith (e : PErr) : Body := { items := [stopOf e], stopped := true }
+def PErr.isFuel : PErr → Bool
+  | .outOfFuel => true
+  | .lex .outOfFuel => true
+  | _ => false
+
+def Body.stopWith (e : PErr) : Body := { items := [stopOf e], stopped := true, hung := e.isFuel }
+
+/-- put one thing that was read in front of what the rest of the scope contains -/
+def Body.push (it : Option Item) (mem : Option (Nat × String × Nat)) (pr : Option String) (res : Body × List Token) : Body × List Token :=
+  -- inside an enum, members that follow a non-member item are never reached
+  ({ items := it.toList ++ res.1.items, members := if it.isSome then [] else mem.toList ++ res.1.members,
+     protos := pr.toList ++ res.1.protos, stopped := res.1.stopped, hung := res.1.hung }, res.2)
+
+/-- a definition with a body in which reading stopped: it is the last thing read -/
+def Body.last (it : Item) (inner : Body) : Body × List Token := ({ items := [it], stopped := true, hung := inner.hung }, [])
+
+def Body.stop (e : PErr) : Body × List Token := (Body.stopWith e, [])
 
 /-- the items of a scope up to its closing brace (or the end of input at the top level).  An error
 ends the reading: the item list then ends in a `.stop` carrying the error. -/
 def items (pend : Option LexErr) : Nat → Scope → List Token → Body × List Token
-  | 0, _, _ => (Body.stopWith .outOfFuel, [])
+  | 0, _, _ => Body.stop .outOfFuel
   | _+1, sc, [] =>
     if sc = .top then
       match pend with
-      | some e => (Body.stopWith (.lex e), [])     -- the parser asks for one more token: the lexer's error
+      | some e => Body.stop (.lex e)     -- the parser asks for one more token: the lexer's error
       | none => ({}, [])
-    else (Body.stopWith (bad pend []), [])
+    else Body.stop (bad pend [])
   | f+1, sc, t :: ts =>
-    let cont (it : Option Item) (mem : Option (Nat × String × Nat)) (pr : Option String) (rest : List Token) : Body × List Token :=
-      let (b, r) := items pend f sc rest
-      -- inside an enum, members that follow a non-member item are never reached
-      let mems := if it.isSome then [] else mem.toList ++ b.members
-      ({ items := it.toList ++ b.items, members := mems, protos := pr.toList ++ b.protos, stopped := b.stopped }, r)
-    let stop (e : PErr) : Body × List Token := (Body.stopWith e, [])
     match t.kind with
-    | .newline => cont none none none ts
+    | .newline => Body.push none none none (items pend f sc ts)
     | .comment =>
       match ts with
-      | ⟨.newline, _⟩ :: r => cont none none none r
-      | _ => stop (bad pend ts)
-    | .lit '}' => if sc = .top then stop (.syntax (some t.line)) else ({}, ts)
+      | ⟨.newline, _⟩ :: r => Body.push none none none (items pend f sc r)
+      | _ => Body.stop (bad pend ts)
+    | .lit '}' => if sc = .top then Body.stop (.syntax (some t.line)) else ({}, ts)
     | .kw "enum" =>
       match ts with
       | ⟨.ident name, l⟩ :: ⟨.lit ':', _⟩ :: ⟨.uintType n, _⟩ :: ⟨.lit '{', _⟩ :: r =>
-        let (b, r1) := items pend f .enum r
-        if b.stopped then ({ items := [.enum l name n b.members b.items], stopped := true }, [])
-        else cont (some (.enum l name n b.members b.items)) none none r1
-      | ⟨.ident _, _⟩ :: ⟨.lit ':', _⟩ :: ⟨.uintType _, _⟩ :: r => stop (bad pend r)
-      | ⟨.ident _, _⟩ :: ⟨.lit ':', _⟩ :: r => stop (bad pend r)
-      | ⟨.ident _, _⟩ :: r => stop (bad pend r)
-      | _ => stop (bad pend ts)
+        let inner := items pend f .enum r
+        if inner.1.stopped then Body.last (.enum l name n inner.1.members inner.1.items) inner.1
+        else Body.push (some (.enum l name n inner.1.members inner.1.items)) none none (items pend f sc inner.2)
+      | ⟨.ident _, _⟩ :: ⟨.lit ':', _⟩ :: ⟨.uintType _, _⟩ :: r => Body.stop (bad pend r)
+      | ⟨.ident _, _⟩ :: ⟨.lit ':', _⟩ :: r => Body.stop (bad pend r)
+      | ⟨.ident _, _⟩ :: r => Body.stop (bad pend r)
+      | _ => Body.stop (bad pend ts)
     | .kw "message" =>
       match ts with
       | ⟨.ident name, l⟩ :: r =>
-        let (ext, r0) := optExt r
-        match r0 with
+        match (optExt r).2 with
         | ⟨.lit '{', _⟩ :: r1 =>
-          let (b, r2) := items pend f .msg r1
-          if b.stopped then ({ items := [.msg l name ext b.items], stopped := true }, [])
-          else cont (some (.msg l name ext b.items)) none none r2
-        | _ => stop (bad pend r0)
-      | _ => stop (bad pend ts)
+          let inner := items pend f .msg r1
+          if inner.1.stopped then Body.last (.msg l name (optExt r).1 inner.1.items) inner.1
+          else Body.push (some (.msg l name (optExt r).1 inner.1.items)) none none (items pend f sc inner.2)
+        | r0 => Body.stop (bad pend r0)
+      | _ => Body.stop (bad pend ts)
     | .kw k =>
       match simpleStmt pend k t.line ts with
-      | .error e => stop e
+      | .error e => Body.stop e
       | .ok (it, pr, r) =>
         match pr with
-        | some s => if sc = .top then cont none none (some s) r else stop (.protoInScope t.line)
-        | none => cont it none none r
+        | some s => if sc = .top then Body.push none none (some s) (items pend f sc r) else Body.stop (.protoInScope t.line)
+        | none => Body.push it none none (items pend f sc r)
     | .ident s =>
       if sc = .enum then
         match ts with
-        | ⟨.lit '=', _⟩ :: r =>
-          match r with
-          | ⟨.int v, _⟩ :: r' => cont none (some (t.line, s, v)) none (optSemi r')
-          | ⟨.hex v, _⟩ :: r' => cont none (some (t.line, s, v)) none (optSemi r')
-          | _ => stop (bad pend r)
+        | ⟨.lit '=', _⟩ :: ⟨.int v, _⟩ :: r' => Body.push none (some (t.line, s, v)) none (items pend f sc (optSemi r'))
+        | ⟨.lit '=', _⟩ :: ⟨.hex v, _⟩ :: r' => Body.push none (some (t.line, s, v)) none (items pend f sc (optSemi r'))
+        | ⟨.lit '=', _⟩ :: r => Body.stop (bad pend r)
         | _ =>
           match field pend (t :: ts) with
-          | .error e => stop e
-          | .ok (it, r) => cont (some it) none none r
+          | .error e => Body.stop e
+          | .ok (it, r) => Body.push (some it) none none (items pend f sc r)
       else if sc = .msg then
         match field pend (t :: ts) with
-        | .error e => stop e
-        | .ok (it, r) => cont (some it) none none r
-      else stop (.syntax (some t.line))
+        | .error e => Body.stop e
+        | .ok (it, r) => Body.push (some it) none none (items pend f sc r)
+      else Body.stop (.syntax (some t.line))
     | .boolType | .byteType | .uintType _ | .intType _ =>
-      if sc = .top then stop (.syntax (some t.line)) else
+      if sc = .top then Body.stop (.syntax (some t.line)) else
         match field pend (t :: ts) with
-        | .error e => stop e
-        | .ok (it, r) => cont (some it) none none r
-    | _ => stop (.syntax (some t.line))
+        | .error e => Body.stop e
+        | .ok (it, r) => Body.push (some it) none none (items pend f sc r)
+    | _ => Body.stop (.syntax (some t.line))
 
 structure Parsed where
   proto : String
@@ -318,11 +334,14 @@ def universalNewlines : List Char → List Char
   | c :: cs => c :: universalNewlines cs
   | [] => []
 
+/-- everything read from a whole file -/
+def parseBody (raw : List Char) : Body :=
+  let lexed := Lex.lex (universalNewlines raw)
+  (items lexed.2 (lexed.1.length + 1) .top lexed.1).1
+
 /-- a whole file: always an item list; an error is its last item (at some depth) -/
 def parseText (raw : List Char) : Parsed :=
-  let text := universalNewlines raw
-  let (toks, pend) := Lex.lex text
-  let (b, _) := items pend (toks.length + 1) .top toks
+  let b := parseBody raw
   if b.stopped then ⟨(b.protos.getLast?).getD "", b.items⟩
   else
     match b.protos.getLast? with
